@@ -248,6 +248,7 @@ func runC15(c *hx.Ctx) *hx.Outcome {
 	fail := func(class, format string, a ...interface{}) { o.Fail(class, format, a...) }
 	// check is run by displayers on their own copy of a message
 	check := func(who string, m rtcm.Message, fi int, repeats int, vandal bool) {
+		rt.Progress()
 		b := bases[fi]
 		first := ""
 		for r := 0; r < repeats; r++ {
